@@ -1090,7 +1090,7 @@ pub fn run(args: &Args) -> i32 {
          names, append in the evolved schema, delete, compact_files; after every step all columns by id, column list, row \
          order (schema ops), unique field ids. Non-trivial = >=2 applied schema operations on a non-empty table; distinct by \
          (version, stable, applied step kinds).",
-        (60, 900),
+        (85, 900),
     )
     .with_min_nontrivial(args.tier.pick(40, 400));
     let ops = Histo::default();
